@@ -120,6 +120,7 @@ PROPS['C13'] = dict(level='model_checking',
              for p in ('reduce', 'transform_filter', 'for_each', 'take_until_never', 'take_until_trigger', 'type_erase', 'via_on', 'stop_immediately') for n in (0, 1, 3) for e in range(0, n + 2) if not (p in ('take_until_trigger',) and e) and not (p == 'transform_filter' and n == 3)] +
             [SEQ('reduce_interr_n%d_e%d' % (n, e), 'C13_streams.cpp', 'h_reduce_interr', exc=True, opts=dict(params=[n, e], max_visits=200), desc='reduce_stream over a source failing with a typed (int) error at position %d' % (e - 1)) for n in (1, 3) for e in range(1, n + 2)] +
             [SEQ('take_until_abandon_n%d_t%d' % (n, t), 'C13_streams.cpp', 'h_take_until_abandon', exc=True, opts=dict(params=[n, t], max_visits=200), desc='for_each(take_until(src,never)) whose function throws at element %d' % t) for n in (1, 3) for t in range(0, n)] +
+            [H('si_cleanup_vs_abandoned_next', 'C13_race_si.cpp', ['h_cleanup', 'h_source_completes'], 20, exc=True, desc='stop_immediately: consumer starts cleanup() while the abandoned next(source) completes on another thread')] +
             [SEQ('range_single_n%d' % n, 'C13_streams.cpp', 'h_range_single', exc=True, opts=dict(params=[n], max_visits=200), desc='range_stream of %d elements' % n) for n in (0, 1, 4)])
 
 PROPS['C02'] = dict(level='fault_enumeration',
